@@ -73,6 +73,20 @@ def targeted(ctx, T):
             for st, en in ((a_, b_), (b_, a_), (a_, a_), (a_.upper(), a_.lower())):
                 out.append((wrap % ("<%s>x</%s>y" % (st, en)), rng.choice([None, None, "div", "td", "svg"]), False, True))
                 out.append((wrap % ("<%s %s=1 %s=2>x" % (st, st, en)), None, False, True))
+    # 6. quirks-mode decision: doctypes (public identifier families x system identifier missing / empty / present) followed by the
+    #    one construct whose tree depends on the mode (<table> while a p is open)
+    pubs = ["-//W3C//DTD HTML 4.01 Transitional//EN", "-//W3C//DTD HTML 4.01 Frameset//EN", "-//W3C//DTD XHTML 1.0 Transitional//EN",
+            "-//W3C//DTD XHTML 1.0 Frameset//EN", "-//W3C//DTD HTML 4.01//EN", "-//W3O//DTD W3 HTML Strict 3.0//EN//", "-/W3C/DTD HTML 4.0 Transitional/EN",
+            "HTML", "-//IETF//DTD HTML//EN", "-//w3c//dtd html 4.01 transitional//en", "", "x"]
+    syss = [None, "", "http://www.w3.org/TR/html4/loose.dtd", "http://www.ibm.com/data/dtd/v11/ibmxhtml1-transitional.dtd", "about:legacy-compat", "x"]
+    for pu in pubs:
+        for sy in syss:
+            for q in ('"', "'"):
+                dt = "<!DOCTYPE html PUBLIC %s%s%s%s>" % (q, pu, q, "" if sy is None else " %s%s%s" % (q, sy, q))
+                out.append((dt + "<p>a<table><tr><td>b", None, False, True))
+    for nm in ("html", "HTML", "htm", ""):
+        for sy in syss:
+            out.append(("<!DOCTYPE %s%s><p>a<table>" % (nm, "" if sy is None else " SYSTEM '%s'" % sy), None, False, True))
     return out
 
 
